@@ -51,6 +51,8 @@ ID = "C20"
 DRIVER = "drv_c20"
 PROPS = ["Ptk.Props.C20", "Ptk.Props.C20Chain", "Ptk.Props.C20ChainLemmas", "Ptk.Props.C20Lock"]
 SERIAL = False
+ANCHORS = ["src/prompt_toolkit/patch_stdout.py", "src/prompt_toolkit/application/run_in_terminal.py",
+           "src/prompt_toolkit/application/application.py", "src/prompt_toolkit/application/current.py"]
 LEVEL_TEXT = ("Lean 4 theorems over two executable transition-system models with atomic steps at lock / event-loop "
               "granularity, for ANY number of threads and ANY interleaving (induction over arbitrary step lists): "
               "(a) StdoutProxy (write/flush under the RLock, line buffer, flush queue, the flush thread's sections, "
@@ -61,7 +63,8 @@ LEVEL_TEXT = ("Lean 4 theorems over two executable transition-system models with
               "(b) in_terminal with the _running_in_terminal_f chain and sections open across awaits: chain_mutex, chain_fifo, "
               "sections_do_not_overlap, prompt_untouched_in_section, section_starts_after_erase; "
               "(c) write/flush split into their shared-state steps with the lock as a model variable: lock_mutex, "
-              "lock_stream_invariant, lock_exactly_once, lock_per_thread_order, and a witness that the same code without "
+              "lock_stream_invariant, lock_exactly_once, lock_per_thread_order, call_refines_write/flush (a whole call = the "
+              "atomic step of model (a)), and a witness that the same code without "
               "the lock loses text. Three schedule windows in "
               "which the property is FALSE of the current code are refuted on concrete schedules in Lean and replayed on the "
               "real code (known findings K1-K3). Tied to /repo on every run by a differential correspondence (real "
